@@ -93,6 +93,28 @@ UNIT_RANGES = ['items=0-1', 'lines=-1', 'seconds=5-', 'none=x', 'Bytes2=0-0']
 BAD_RANGES = ['bytes 0-1', 'bytes=0-0,2-3', 'bytes=-', 'bytes=x-1', 'bytes=3', 'bytes=', 'bytes=1-x', 'bytes=--1',
               '0-1', 'bytes=0-0,-1']
 BAD_DATES = ['garbage', 'Tue, 35 Nov 1994 12:45:26 GMT', '12345']
+# the numerals the specification's position class Huge is instantiated with (ascending): beyond every file size,
+# beyond 32-bit and 64-bit integers, beyond any offset seek() accepts
+HUGE = sorted([2 ** 31, 2 ** 32, 2 ** 63 - 1, 2 ** 63, 2 ** 64, 10 ** 19, 10 ** 20, 10 ** 25, 10 ** 30])
+HUGE_MORE = sorted(set(HUGE + [2 ** 31 + 1, 2 ** 32 - 1, 2 ** 32 + 1, 2 ** 53, 2 ** 62, 2 ** 63 + 1, 2 ** 64 - 1, 2 ** 64 + 1,
+                               2 ** 65, 2 ** 127, 2 ** 128, 10 ** 10, 10 ** 12, 10 ** 15, 10 ** 18, 10 ** 21, 10 ** 40,
+                               10 ** 100, 4294967296 * 3 + 1, 18446744073709551616 + 2]))
+ZEROS = ('', '', '0', '00', '0' * 25)
+
+
+def numerals(r, rng, pool=HUGE_MORE, pick=None):
+    """the two position numerals of a Range: small numbers as they are, Huge ones from the pool with the order
+    the ranks (ha, hb) say; pick = index into the pool instead of a random choice"""
+    ha, hb = r.get('ha', 0), r.get('hb', 0)
+    if ha and hb:
+        i = rng.randrange(len(pool) - 1) if pick is None else pick % (len(pool) - 1)
+        lo, hi = pool[i], pool[i + 1 if pick is not None or rng.random() < 0.5 else rng.randrange(i + 1, len(pool))]
+        x, y = (lo, lo) if ha == hb else (lo, hi) if ha < hb else (hi, lo)
+    else:
+        h = pool[rng.randrange(len(pool)) if pick is None else pick % len(pool)]
+        x, y = (h if ha else r['a']), (h if hb else r['b'])
+    z = lambda: rng.choice(ZEROS) if (pick is None or ha or hb) else ''
+    return z() + str(x), z() + str(y)
 
 
 class World:
@@ -268,12 +290,13 @@ class World:
         return b''.join(out), esc
 
     @staticmethod
-    def headers(c, rng):
+    def headers(c, rng, pick=None):
         hs = []
         r = c['range']
         k = r['k']
         if k != 'none':
-            v = {'fl': 'bytes=%d-%d' % (r['a'], r['b']), 'f': 'bytes=%d-' % r['a'], 's': 'bytes=-%d' % r['a'],
+            sa, sb = numerals(r, rng, HUGE_MORE if pick is None else HUGE, pick)
+            v = {'fl': 'bytes=%s-%s' % (sa, sb), 'f': 'bytes=%s-' % sa, 's': 'bytes=-%s' % sa,
                  'unit': rng.choice(UNIT_RANGES), 'bad': rng.choice(BAD_RANGES)}[k]
             hs.append((rng.choice(('Range', 'range', 'RANGE')), v))
         i = c['ims']
@@ -345,11 +368,11 @@ class World:
                 'exc': r.exc is not None, 'lm': lm}, r
 
 
-def variant(world, c, rng, iface=None, mode=None):
+def variant(world, c, rng, iface=None, mode=None, pick=None):
     tb, esc = world.render(c['path'], mode or rng.choice(('raw', 'enc', 'mix')), rng)
     return {'iface': iface or rng.choice(('wsgi', 'asgi')), 'dl': rng.randrange(2), 'pv': rng.randrange(len(PREFIXES)),
             'dv': rng.randrange(3), 'fw': rng.randrange(2), 'lifo': rng.randrange(2), 'target': tb.decode('latin-1'),
-            'headers': World.headers(c, rng), 'escaped': esc}
+            'headers': World.headers(c, rng, pick), 'escaped': esc}
 
 
 def nontrivial(c, v):
@@ -436,11 +459,17 @@ def rand_num(rng):
     return rng.randint(0, 9) if t < 0.9 else rng.choice((10, 100, 65536, 10 ** 9))
 
 
+def rand_pos(rng):
+    """(small number, rank): rank 0 = the small number; rank 1, 2 = Huge (rendered by numerals())"""
+    return (0, rng.choice((1, 1, 2))) if rng.random() < 0.18 else (rand_num(rng), 0)
+
+
 def rand_case(rng, zones, zones_off):
     t = rng.random()
     k = 'none' if t < 0.35 else 'fl' if t < 0.60 else 'f' if t < 0.72 else 's' if t < 0.84 else \
         'unit' if t < 0.90 else 'bad'
-    r = {'k': k, 'a': rand_num(rng) if k in ('fl', 'f', 's') else 0, 'b': rand_num(rng) if k == 'fl' else 0}
+    pa, pb = (rand_pos(rng) if k in ('fl', 'f', 's') else (0, 0)), (rand_pos(rng) if k == 'fl' else (0, 0))
+    r = {'k': k, 'a': pa[0], 'b': pb[0], 'ha': pa[1], 'hb': pb[1]}
     zone = rng.choice(zones)
     clock = rng.choice(('past', 'past2', 'future1d', 'future10y'))
     t = rng.random()
@@ -472,6 +501,7 @@ def rand_case(rng, zones, zones_off):
 
 def signature(clause, c):
     return {'clause': clause, 'fb': c['fb'], 'head': c['head'], 'range_kind': c['range']['k'], 'ims': c['ims']['k'],
+            'range_huge': [int(c['range'].get('ha', 0) > 0), int(c['range'].get('hb', 0) > 0)],
             'ims_sign': (c['ims']['d'] > 0) - (c['ims']['d'] < 0), 'zone': c['zone'], 'clock': c['clock'],
             'path_atoms': sorted(set(a for a in c['path'] if a in ('/', '.', 'sp', 'bsl', 'bad', 'u', 'L', 'M')))}
 
@@ -569,6 +599,17 @@ def run(ctx):
                                  'RangeFull', 'RangePartial'])
         res['hist'] = r
 
+    huge_actions = ['Submit', 'OpenRequested', 'OpenFallback', 'OpenMiss', 'NotModified304', 'Modified', 'RangeFull',
+                    'RangePartial', 'RangeUnsat', 'RangeBad']
+
+    def m_huge():
+        # positions as magnitude classes: Huge first / last / both / suffix next to the small positions around the size
+        r = ctx.tlc('MC_StaticRoute', 'MC_StaticRouteHuge.cfg', coverage=True, workers=4, timeout=600)
+        ctx.require_coverage(r, huge_actions)
+        if r.coverage.get('RangeSeekFails', (0, 0))[1]:
+            raise MachineryError('the designed pipeline took the wrong-design action RangeSeekFails')
+        res['huge'] = r
+
     def m_wide():
         if q:
             r = ctx.tlc('MC_StaticRoute', 'MC_StaticRouteWide3.cfg', coverage=True, workers=6, timeout=600)
@@ -591,7 +632,7 @@ def run(ctx):
         want = {'MC_StaticRouteBadAbs.cfg': True, 'MC_StaticRouteBadDots.cfg': True, 'MC_StaticRouteBadFinal.cfg': True,
                 'MC_StaticRouteDepth.cfg': False, 'MC_StaticRouteBadLen.cfg': True, 'MC_StaticRouteBadUnsat.cfg': True,
                 'MC_StaticRouteBadIms.cfg': True, 'MC_StaticRouteBadZone.cfg': True, 'MC_StaticRouteBadClock.cfg': True,
-                'MC_StaticRouteBadMemo.cfg': True}
+                'MC_StaticRouteBadMemo.cfg': True, 'MC_StaticRouteBadHuge.cfg': True}
         out = {}
         for cfg, must_fail in want.items():
             r = ctx.tlc('MC_StaticRoute', cfg, workers=2, timeout=600, must_hold=False, count=False)
@@ -602,6 +643,7 @@ def run(ctx):
         ctx.extra['wrong_design_runs'] = out
 
     background(m_range)
+    background(m_huge)
     background(m_cond)
     background(m_wide)
     background(m_hist)
@@ -662,6 +704,50 @@ def run(ctx):
         range_cases = list({digest(j['c']): j for j in r.json if j.get('t') == 'case'}.values())
         replay_cases(range_cases, ctx.pick(4, 1), 'range/ims')
         ctx.samples = ctx.samples[:2]            # leave room for a path sample and a random one
+
+        # ---- leg A, positions far beyond the size: every specification case with a Huge position is replayed with
+        # Huge instantiated by each concrete numeral (both interfaces); the outcome TLC computed must be met
+        rhu = wait('huge')
+        huge_cases = sorted({digest(j['c']): j for j in rhu.json if j.get('t') == 'case'}.values(),
+                            key=lambda j: digest(j['c']))
+        n_huge = n_inst = 0
+        classes = {}
+        for i, j in enumerate(huge_cases):
+            c, e = j['c'], j['e']
+            is_huge = c['range']['ha'] > 0 or c['range']['hb'] > 0
+            n_huge += is_huge
+            obs_seen, vs = [], []
+            for pick in (range(len(HUGE)) if is_huge else (0,)):
+                ifaces = ('wsgi', 'asgi') if (not q or not is_huge or (pick + i) % 3 == 0) else ('wsgi',)
+                for iface in ifaces:
+                    v = variant(world, c, rng, iface, 'raw', pick=pick)
+                    o, _ = world.observe(c, v)
+                    stats[iface] += 1
+                    n_inst += 1
+                    ctx.case({'c': c, 'variant': v}, nontrivial=True,
+                             key=hash((repr(c), v['target'], repr(v['headers']), iface)))
+                    if is_huge and e['status'] in (200, 206, 400, 416):
+                        kk = (c['range']['k'], c['range']['ha'] > 0, c['range']['hb'] > 0, e['status'])
+                        classes[kk] = classes.get(kk, 0) + 1
+                    if o != e and o not in obs_seen:
+                        obs_seen.append(o)
+                        vs.append(v)
+            if obs_seen:
+                mismatches.append(([{'m': 0, 'c': c, 'o': o} for o in obs_seen], vs))
+        ctx.traces_validated += n_inst
+        need = [('fl', False, True, 206), ('fl', False, True, 416), ('fl', False, True, 200), ('fl', True, True, 416),
+                ('fl', True, True, 400), ('fl', True, True, 200), ('fl', True, False, 400), ('f', True, False, 416),
+                ('f', True, False, 200), ('s', True, False, 206), ('s', True, False, 200)]
+        if any(k not in classes for k in need):
+            raise MachineryError('the Huge instance does not exercise %r' % [k for k in need if k not in classes])
+        ctx.extra['huge_positions'] = {
+            'numerals': [str(x) for x in HUGE], 'spec_cases': len(huge_cases), 'spec_cases_with_a_huge_position': n_huge,
+            'replays': n_inst, 'model_states': rhu.distinct,
+            'expected_outcomes_replayed': {'%s first=%s last=%s -> %d' % (k[0], 'Huge' if k[1] else 'small',
+                                                                        'Huge' if k[2] else 'small', k[3]): n
+                                           for k, n in sorted(classes.items())}}
+        ctx.progress('leg A huge positions: %d spec cases (%d with a Huge position) x %d numerals, %d replays, %d differing '
+                     'so far' % (len(huge_cases), n_huge, len(HUGE), n_inst, len(mismatches)))
         rc = wait('cond')
         cond_cases = list({digest(j['c']): j for j in rc.json if j.get('t') == 'case'}.values())
         replay_cases(cond_cases, ctx.pick(4, 1), 'conditional x zones x clocks', spellings=ctx.pick(1, 2))
@@ -778,6 +864,9 @@ def replay(ctx, case):
     world = World(fs, random.Random(ctx.seed))
     try:
         steps = case.get('steps') or [{'m': 0, 'c': case['c'], 'variant': case['variant']}]
+        for st in steps:                                   # cases recorded before positions had a magnitude rank
+            st['c']['range'].setdefault('ha', 0)
+            st['c']['range'].setdefault('hb', 0)
         v0 = steps[0]['variant']
         app = world.app(v0['iface'], steps[0]['c']['fb'], v0['dl'], v0['pv'], v0['dv'], v0.get('lifo', 0), fresh=True)
         out = []
